@@ -194,3 +194,60 @@ def compile_only(text, predicate, user_flags=None, import_root=None, rules=None)
   if bad:
     return bad
   return Outcome('sql', sql=formatted, statements=statements)
+
+
+def run_workflow(text, predicates, rules=None, user_flags=None, probe=None, import_root=None, one_program=True):
+  """The path of tools/run_in_terminal.py (Run / RunMany): one LogicaProgram, FormattedPredicateSql per
+  requested predicate, concertina_lib.ExecuteLogicaProgram with the tool's own SqlRunner on SQLite.
+  Returns (results {pred: Outcome}, trace [(action name or None, sql, is_final)], executions) or (None, None, Outcome)."""
+  m = mods()
+  from common import concertina_lib
+  from tools import run_in_terminal
+  if rules is None:
+    rules, bad = parse_program(text, import_root)
+    if bad:
+      return None, None, bad
+  trace = []
+  try:
+    prog = m['universe'].LogicaProgram(rules, user_flags=user_flags or {})
+    executions = []
+    for p in predicates:
+      prog.FormattedPredicateSql(p)
+      executions.append(prog.execution)
+    runner = run_in_terminal.SqlRunner('sqlite', logic_program=prog)
+    if probe is not None:
+      probe.attach(runner.connection)
+    ticks = [0]
+
+    def progress():
+      ticks[0] += 1
+      return 1 if ticks[0] > SQL_TICK_LIMIT * 4 else 0
+    runner.connection.set_progress_handler(progress, 100000)
+    sql_to_name = {}
+    for e in executions:
+      for name, sql in e.table_to_export_map.items():
+        sql_to_name.setdefault(e.PredicateSpecificPreamble(e.main_predicate) + sql, name)
+        sql_to_name.setdefault(sql, name)
+
+    def recording_runner(sql, engine, is_final):
+      trace.append((sql_to_name.get(sql), sql, is_final))
+      if len(trace) > 20000:
+        raise RuntimeError('runaway workflow: more than 20000 statements')
+      import io
+      import contextlib
+      with contextlib.redirect_stdout(io.StringIO()):
+        return runner(sql, engine, is_final)
+    results = concertina_lib.ExecuteLogicaProgram(executions, recording_runner, 'sqlite', display_mode='silent')
+    out = {}
+    for p in predicates:
+      header, rows = results[p]
+      out[p] = Outcome('rows', columns=list(header), rows=[list(r) for r in rows])
+    runner.connection.close()
+    return out, trace, executions
+  except m['diagnostics'] as e:
+    return None, trace, Outcome('diagnostic', stage='compile', exc_type=type(e).__name__, message=_msg(e), exc=e)
+  except Exception as e:
+    if 'ticks' in locals() and ticks[0] > SQL_TICK_LIMIT * 4:
+      return None, trace, Outcome('capped', stage='execute', message='workflow exceeded the step budget')
+    return None, trace, Outcome('internal', stage='workflow', exc_type=type(e).__name__, message=str(e)[:500],
+                                tb=traceback.format_exc()[-3000:], exc=e)
